@@ -408,11 +408,12 @@ func (w *World) OnSnapshotDurable(node int, meta raft.SnapshotMeta, data []byte)
 // Network
 
 type VTrans struct {
-	w    *World
-	n    *Node
-	inc  int
-	cons chan raft.RPC
-	hb   func(raft.RPC)
+	noNet bool // handler-level harnesses: every outgoing RPC fails at once
+	w     *World
+	n     *Node
+	inc   int
+	cons  chan raft.RPC
+	hb    func(raft.RPC)
 }
 
 func (t *VTrans) Consumer() <-chan raft.RPC                                { return t.cons }
@@ -455,6 +456,9 @@ func (t *VTrans) send(target raft.ServerAddress, kind string, req any, body []by
 }
 
 func (t *VTrans) call(target raft.ServerAddress, kind string, req any, body []byte) (raft.RPCResponse, error) {
+	if t.noNet {
+		return raft.RPCResponse{}, fmt.Errorf("no network (handler-level harness)")
+	}
 	m := t.send(target, kind, req, body)
 	vsched.WaitAlways("rpc:"+kind, func() bool { return m.done })
 	if m.failed {
